@@ -65,6 +65,10 @@ Checks(e, ln) ==
                                                ELSE p \notin virgin' /\ e.disk[p + 1] # latest'[p]
         THEN V("C13.lost", ln, <<e.ev, e.pid>>) ELSE <<>>)
   \o (IF \E p \in Pid : ptN[p] # NoFrame /\ frN[ptN[p]].pid # p THEN V("C13.mapped", ln, <<e.ev, e.pid>>) ELSE <<>>)
+  \* an unpinned resident page that differs from its disk image and is not marked dirty will be lost by its eviction
+  \o (IF \E p \in live' : ptN[p] # NoFrame /\ frN[ptN[p]].pid = p /\ frN[ptN[p]].pin = 0 /\ p \notin virgin'
+                           /\ frN[ptN[p]].val # e.disk[p + 1] /\ ~frN[ptN[p]].dirty /\ ~frN[ptN[p]].dealloc
+        THEN V("C13.lost", ln, <<"not dirty although newer than disk", e.ev, e.pid>>) ELSE <<>>)
 
 Exhausted == free = <<>> /\ repl = {}
 
